@@ -149,11 +149,25 @@ static void make_bases(void) {
         BASE[k].li = k % R_NLANG; BASE[k].coin = (k < 2) ? 0 : (unsigned)(prng(&ps) & 2047);
         BASE[k].c[1] ^= BASE[k].coin;          /* c[] now holds the word indices of the phrase */
     }
+    /* Spanish and French phrases made of unaccented words only: a substituted accented word is then the only non-ASCII text of the phrase */
+    for (int li = 3; li <= 4 && K < MAXK; li++, K++) {
+        unsigned pick[16]; int n = 1; for (unsigned i = 100; i < R_NW && n < 16; i += 37) if (!strcmp(RL[li].w[i], RL[li].wkey[i])) pick[n++] = i;
+        pick[2] &= ~1u; pick[0] = 0; if (strcmp(RL[li].w[pick[2]], RL[li].wkey[pick[2]])) pick[2] = pick[3] & ~1u;
+        unsigned coin = 0x155; pick[1] ^= coin; pick[0] = 0; pick[0] = ref_eval(pick); pick[1] ^= coin;
+        memcpy(BASE[K].c, pick, sizeof pick); BASE[K].li = li; BASE[K].coin = coin;
+    }
     NBASE = K;
 }
+static void check_altered_form(const unsigned idx[16], int li, unsigned coin, struct res *r, const char *what, long x, int form);
 static void check_altered(const unsigned idx[16], int li, unsigned coin, struct res *r, const char *what, long x) {
+    /* both spellings: as emitted (composed) and NFKD, when they differ */
+    char a[2048], b[2048]; ref_phrase_from_idx(idx, li, a, 0); ref_phrase_from_idx(idx, li, b, 2);
+    check_altered_form(idx, li, coin, r, what, x, (x & 1) ? 0 : 2);
+    if (strcmp(a, b)) check_altered_form(idx, li, coin, r, what, x, (x & 1) ? 2 : 0);
+}
+static void check_altered_form(const unsigned idx[16], int li, unsigned coin, struct res *r, const char *what, long x, int form) {
     char ph[2048], rep[2300];
-    ref_phrase_from_idx(idx, li, ph, (x & 1) ? 0 : 2);     /* alternate composed output form and NFKD form */
+    ref_phrase_from_idx(idx, li, ph, form);
     snprintf(rep, sizeof rep, "case d %d %u %s", li, coin, ph);
     extern char *G_cur; if (G_cur) { strncpy(G_cur, rep, 1999); G_cur[1999] = 0; }
     polyseed_data *d = NULL; const polyseed_lang *lo = NULL;
